@@ -29,3 +29,5 @@ def run(ctx):
     E.r17_5_error_of_the_empty_verdict(ctx)
     E.r17_6_cited_node(ctx)
     H.r17_7_set_value_marks(ctx)
+    E.r17_9_mark_provenance(ctx)
+    H.r16_1_purity(ctx, 'R17.8', roots=['yatiml.recognizer:Recognizer.recognize'], what='recognition (error messages are built per node, nothing is remembered between nodes)')
